@@ -35,3 +35,10 @@ Proof.
   split; [right; split; [vm_compute; reflexivity|reflexivity]|].
   constructor; [right; split; [vm_compute; reflexivity|reflexivity]|constructor; [left; reflexivity|constructor]].
 Qed.
+
+(* ---- the instance at scale 4 (Model/GridRelExampleK.v) *)
+From TV Require Import Model.Scale Model.GridRelExampleK.
+Lemma ge_scaled_4 : ge_scaled_same 4 (ge_run ge_container [ge_a; ge_b]) (ge_run_k 4 ge_container [ge_a; ge_b]) = true /\
+                    ge_sizes (ge_run_k 4 ge_container [ge_a; ge_b]) = [(0, gq 144, gq 64); (1, gq 248, gq 64)] /\
+                    ge_scaled_same 4 (ge_run ge_container [ge_a; ge_b]) (ge_run_k 2 ge_container [ge_a; ge_b]) = false.
+Proof. vm_compute. repeat split. Qed.
